@@ -17,6 +17,7 @@ import DSV.Model.Path
 import DSV.Model.Read
 import DSV.Model.Append
 import DSV.Model.History
+import DSV.Model.TxOps
 /-!
 Line-protocol driver: one request per line on stdin, one reply per line on stdout.
 First token selects the model function.  Imports only `DSV.Model.*` (core Lean), so it links natively.
@@ -1018,6 +1019,20 @@ def handle (line : String) : String :=
     else if cmd = "gc.run" then handleGcRun args
     else if cmd = "gcrace.trace" then handleRace args
     else if cmd = "rd.get" then handleRd args
+    else if cmd = "tx.partition" then
+      (let parseOp (t : String) : Option DSV.TxOps.Op :=
+         match t.splitOn ":" with
+         | ["a", fs] => (parseNatList fs "+").map .appendFiles
+         | ["d", ps] => (parseNatList ps "+").map .deleteFiles
+         | ["e", c] => c.toNat?.map .expire
+         | _ => none
+       match args.mapM parseOp with
+       | some ops =>
+           let p := DSV.TxOps.partition ops
+           let sh := match DSV.TxOps.shape p with | .fileOps => "fileOps" | .metadataOnly => "metadataOnly"
+           let cut := match p.cutoff with | some c => toString c | none => "-"
+           s!"appends={joinWith "," (p.appends.map toString)} deletes={joinWith "," (p.deletes.map toString)} cutoff={cut} shape={sh}"
+       | none => "bad-op")
     else if cmd = "cf.exit" then
       (match args with
        | [e, a] =>
